@@ -25,7 +25,7 @@ def run(ctx):
     s = ctx.stream("effects:registry (static verdict per class + search on flagged classes)")
     flagged, explained = set(), False
     for cls, ent in rep["classes"].items():
-        offs = EC.registry_offences(ent)
+        offs = EC.registry_offences(ent, ent.get("reset_assigned", []) if PROP == "C10" else ())
         s.case((cls, "registry-static"), bool(ent["written"]),
                sample={"class": cls, "registered": [f for f, _ in ent["registered"]], "written": ent["written"]})
         if not offs:
